@@ -6,6 +6,7 @@ CONSTANTS
   TTL = 5
   Validity = 2
   MaxClock = 5
+  Margin = 1
   NoReverify = FALSE
   KeyIgnoresName = FALSE
 CONSTRAINT Emit
